@@ -77,4 +77,15 @@ theorem normalize2_null_of_null (F : Fn α) (n k : Nat) (m : Mat α) (i : Nat)
     · simp [normalize2, hi, hj]
   · simp [normalize2, hi]
 
+/-- the model's `normalize(·, p=2)` is the specification's "divide every row by its norm, null rows stay null" -/
+theorem normalize2_eq_normalizedEntry (F : Fn α) (n k : Nat) (m : Mat α) (i j : Nat) (hi : i < n) (hj : j < k) :
+    mget (normalize2 F n k m) i j = Spec.normalizedEntry F k m i j := by
+  rw [mget_normalize2 F n k m i j hi hj]
+  unfold Spec.normalizedEntry sqNorm
+  simp only [sumN_eq_sum]
+  by_cases h : F.sqrt (∑ c ∈ range k, mget m i c * mget m i c) = 0
+  · simp [h, pinv_zero]
+  · simp only [beq_iff_eq, h, if_false, pinv_of_ne h]
+    field_simp
+
 end SkNet.Embedding
